@@ -3,6 +3,7 @@ import IstioModel.C04.Process
 import IstioModel.C04.Recv
 import IstioModel.C04.DeltaProtocol
 import IstioModel.C04.Types
+import IstioModel.C04.StreamLoop
 
 /-!
 Line-protocol driver for the streams added in review round 2 (`proc`, `dproc`, ...); every other
@@ -261,6 +262,7 @@ def stepP (p : PState) (toks : List String) : PState × String :=
   | ["case", _, "dproc"] => ({ base := p.base, stream := "dproc" }, "ok")
   | ["case", _, "dproc", "grpc"] => ({ base := p.base, stream := "dproc" }, "ok")   -- the delta path does not read IsProxylessGrpc
   | ["case", _, "recv"] => ({ base := p.base, stream := "recv" }, "ok")
+  | ["case", _, "sloop"] => ({ base := p.base, stream := "sloop" }, "ok")
   | ["case", _, "tproc", _, _, url] =>
     let u := dec url
     ({ base := p.base, stream := "tproc", tty := some (tyOfUrl u), tdebug := urlDebug u }, "ok")
@@ -275,6 +277,12 @@ def stepP (p : PState) (toks : List String) : PState × String :=
     if p.stream == "proc" || p.stream == "dproc" then stepProc p toks
     else if p.stream == "tproc" then stepTproc p (p.tty.getD .nds) toks
     else if p.stream == "recv" then (p, stepRecv toks)
+    else if p.stream == "sloop" then
+      match toks with
+      | ["sloop", _, sc] =>
+        let o := streamLoop (scenario sc)
+        (p, s!"responses={o.responses} ended={boolTok o.ended} error={boolTok o.error}")
+      | _ => (p, "bad-op")
     else if p.stream == "dloop" then stepDloop p toks
     else
       let (b, o) := stepD p.base toks
